@@ -92,7 +92,12 @@ def mutants(argv):
         meta = d / "meta.json"
         if meta.exists() and (d / "patch.diff").exists():
             items.append((json.loads(meta.read_text())["property"], "seeded/" + d.name, d / "patch.diff"))
-    results = {}
+    res_file = VERIF / "mutants" / "last_result.json"
+    try:
+        results = json.loads(res_file.read_text())
+    except Exception:
+        results = {}
+    results = {k: v for k, v in results.items() if any(k == n for _, n, _ in items)}
     rc = 0
     for prop, name, patch in items:
         if only and not any(o in name or o == prop for o in only):
@@ -133,5 +138,5 @@ def mutants(argv):
                         pass
         finally:
             shutil.rmtree(copy, ignore_errors=True)
-    jdump(results, VERIF / "mutants" / "last_result.json", indent=1)
+    jdump(results, res_file, indent=1)
     return rc
